@@ -1077,6 +1077,13 @@ def run(ctx):
     obs += validated_ident_rule(ctx)
     obs += ident_rule(ctx, sites)
     obs += sep_rule(ctx)
+    # an integer literal printed bare must be non-negative (`a - -1` would fuse): the parser stores what it accumulated (C03.literal)
+    from rules.c03 import literal_rules
+    for x in literal_rules(ctx):
+        if x["key"].endswith("/stored-as-accumulated"):
+            x = dict(x)
+            x["key"] = x["key"].replace("C03.literal", "C02.literal")
+            obs.append(x)
     obs += balance_rule(ctx)
     from rules.c03 import float_display_rule
     obs += float_display_rule(ctx, "C02.float")
